@@ -21,15 +21,18 @@ TECHNIQUE = ('fault injection with exhaustive enumeration of crash points '
              'pairs; oracle = uninterrupted run from the same pre-state')
 RULE = ('Family: project features {find_files, pkg_config(), install+test} x '
         'edit {add matching file, remove matching file, semantic build.bfg '
-        'edit, script raises, script aborts with SystemExit(message / code), '
+        'edit, the script starts looking into a second directory, script '
+        'raises, script aborts with SystemExit(message / code), '
         'rule emission raises (duplicate target), re-configuration of the '
         'build directory with another --prefix (followed by forced '
         'regenerations)} x '
         '{make, ninja}.  Per pair every mutation event (open-for-write, '
         'close, remove, utime, makedirs, rename) of the regeneration is hit '
         'with every variant (before / trunc / partial / after / raise / a '
-        'write() failing half-way), '
-        'followed by two un-faulted attempts through the backend.  '
+        'write() failing half-way / KeyboardInterrupt), '
+        'followed by two un-faulted attempts through the backend and, where '
+        'find_files is used, by a further directory change that the recovered '
+        'build directory must pick up like the uninterrupted one.  '
         'Non-trivial: a crash point strictly between two persistent writes '
         'of different files; distinct = (backend, features, edit, event kind, '
         'file role, variant).  The quick tier enumerates a seed-chosen subset '
@@ -54,7 +57,7 @@ FEATURE_SETS = [('find',), ('find', 'pkgconfig'), ('find', 'install'),
                 ('find', 'pkgconfig', 'install'), ('pkgconfig',)]
 EDITS = ['add_match', 'remove_match', 'semantic', 'script_raises',
          'script_exits_msg', 'script_exits_code', 'rule_raises',
-         'reconfigure']
+         'reconfigure', 'add_pattern']
 # edits after which the script cannot be executed to its end
 SCRIPT_FAILS = ('script_raises', 'script_exits_msg', 'script_exits_code')
 BACKENDS = ['make', 'ninja']
@@ -64,7 +67,8 @@ def all_pairs():
     out = []
     for feats, edit, backend in itertools.product(FEATURE_SETS, EDITS,
                                                   BACKENDS):
-        if edit in ('add_match', 'remove_match') and 'find' not in feats:
+        if edit in ('add_match', 'remove_match', 'add_pattern') and \
+                'find' not in feats:
             continue
         if edit == 'reconfigure' and 'pkgconfig' not in feats:
             continue
@@ -75,7 +79,10 @@ def all_pairs():
 
 def script(feats, edit_applied):
     L = ["project('c10', version='1.0')"]
-    if 'find' in feats:
+    if 'find' in feats and edit_applied == 'add_pattern':
+        # the edit makes the script look into a second directory
+        L.append("srcs = find_files('src/*.c') + find_files('extra/*.c')")
+    elif 'find' in feats:
         L.append("srcs = find_files('src/*.c')")
     else:
         L.append("srcs = ['src/a.c', 'src/b.c']")
@@ -110,6 +117,8 @@ def make_prestate(pair, tmp):
     for n in ('main', 't'):
         sandbox.write_file(os.path.join(src, n + '.c'),
                            'int main(void){return 0;}\n')
+    sandbox.write_file(os.path.join(src, 'extra', 'e1.c'),
+                       'int e1(void){return 0;}\n')
     sandbox.write_file(os.path.join(src, 'build.bfg'),
                        script(pair['features'], None))
     env = sandbox.base_env(os.path.join(tmp, 'home'), stub=True,
@@ -201,9 +210,9 @@ def attempt(backend, bld, env, fault=None, log=None, how='backend', src=None):
     return sandbox.run_backend(backend, bld, e, [buildfile(backend)])
 
 
-VARIANTS = {'open-w': ['before', 'trunc', 'raise', 'wfail'],
+VARIANTS = {'open-w': ['before', 'trunc', 'raise', 'wfail', 'intr'],
             'close': ['partial', 'after', 'raise']}
-DEFAULT_VARIANTS = ['before', 'after', 'raise']
+DEFAULT_VARIANTS = ['before', 'after', 'raise', 'intr']
 
 
 def role(path):
@@ -262,6 +271,33 @@ def enumerate_pair(rec, pair, shard, nshards, only=None):
                                 declared_outputs(bld, backend) != ref):
             raise Violation('fault/reference-unstable', 'a second '
                             'uninterrupted attempt changed the result', case0)
+        # a later change the recovered build directory must handle like the
+        # uninterrupted one: a new file where the (new) script looks
+        probe_rel = None
+        ref_probe = None
+        if 'find' in pair['features'] and not expect_fail and \
+                pair['edit'] != 'reconfigure':
+            probe_rel = 'extra/e2.c' if pair['edit'] == 'add_pattern' \
+                else 'src/probe.c'
+
+            def add_probe():
+                pp = os.path.join(src, probe_rel)
+                sandbox.write_file(pp, 'int probe(void){return 0;}\n')
+                t_ = sandbox.Clock(tmp).tick(tmp)
+                for q in (pp, os.path.dirname(pp)):
+                    os.utime(q, ns=(t_, t_))
+
+            def remove_probe():
+                pp = os.path.join(src, probe_rel)
+                if os.path.exists(pp):
+                    os.unlink(pp)
+            add_probe()
+            rp = attempt(backend, bld, env, how=later, src=src)
+            ref_probe = declared_outputs(bld, backend)
+            remove_probe()
+            if rp.rc != 0 or ref_probe == ref:
+                raise HarnessError('probe step had no effect on the '
+                                   'uninterrupted run')
         points = []
         for (i, kind, path) in events:
             for v in VARIANTS.get(kind, DEFAULT_VARIANTS):
@@ -292,8 +328,8 @@ def enumerate_pair(rec, pair, shard, nshards, only=None):
             first_w = min([j for (j, k_, _) in events if k_ == 'open-w'] or
                           [0])
             if pair['edit'] == 'reconfigure' and (
-                    i < first_w or (i == first_w and v in ('before',
-                                                            'raise'))):
+                    i < first_w or (i == first_w and v in ('before', 'raise',
+                                                            'intr'))):
                 # nothing of the new configuration was written yet: the old
                 # one simply stays in force
                 continue
@@ -335,6 +371,25 @@ def enumerate_pair(rec, pair, shard, nshards, only=None):
                             else 'differ from the uninterrupted run',
                             [(e[1], role(e[2])) for e in events]), case)
                     break
+            if probe_rel:
+                ok = all(declared_outputs(bld, backend).get(fn) == ref[fn]
+                         for fn in ref)
+                if ok:
+                    add_probe()
+                    ap = attempt(backend, bld, env, how=later, src=src)
+                    now = declared_outputs(bld, backend)
+                    remove_probe()
+                    if ap.rc == 0 and now != ref_probe:
+                        rec.fail(
+                            'fault/stale-after-recovery/{}/after-{}:{}'
+                            .format(pair['edit'], kind, role(path)),
+                            'after fault {} at event {} ({} {}) the build '
+                            'files were brought up to date, but a file added '
+                            'afterwards ({}) is not picked up: exit 0 and {} '
+                            'differ from the uninterrupted history'.format(
+                                v, i, kind, role(path), probe_rel,
+                                [fn for fn in ref_probe
+                                 if now.get(fn) != ref_probe[fn]]), case)
         rec.notes['events:{}:{}:{}'.format(
             backend, '+'.join(pair['features']), pair['edit'])] = [
                 [k, role(p)] for (_, k, p) in events]
@@ -359,6 +414,9 @@ def tasks(tier):
         # find/add_match pairs (where the persisted cache matters) always in
         core = [p for p in pairs if p['edit'] in ('add_match', 'semantic') +
                 SCRIPT_FAILS and p['features'] == ['find', 'pkgconfig']]
+        core += [p for p in pairs if p['edit'] == 'add_pattern' and
+                 p['features'] == ['find'] and
+                 p['backend'] == ('ninja' if seed % 2 else 'make')]
         core += [p for p in pairs if p['edit'] == 'reconfigure' and
                  p['features'] == ['find', 'pkgconfig'] and
                  p['backend'] == ('make' if seed % 2 else 'ninja')]
